@@ -11,8 +11,14 @@
    configuration loader guarantees for kubernetesValidating (RFC 1123 subdomains) and every
    generated case satisfies; with it the webhook id of a binding is one URL segment.
    model_regs hooks is the list of (hook, type, binding, registered path) — the
-   correspondence checks on every case that the implementation registered exactly these. *)
-From Verif Require Import Common C14_Model C14_Spec C14_Proofs.
+   correspondence checks on every case that the implementation registered exactly these.
+
+   Requests that OVERLAP in time (admission hook runs do not go through the queues: every request
+   is served in its own goroutine): the transition system of C14_ConcModel - statement-level steps
+   of Hook.Run per request, one temp directory, file names made of hook, kind and a uuid drawn from
+   an oracle that never repeats - run under ANY schedule of ANY number of requests; the C14_conc_*
+   theorems say that every request is answered from what its own hook run wrote. *)
+From Verif Require Import Common C14_Model C14_Spec C14_Proofs C14_ConcModel C14_ConcSpec C14_ConcProofs.
 
 Theorem C14_fail_closed : forall hooks path b r, names_ok hooks ->
   allowed_of (fst (admit_request hooks path b r)) = true ->
@@ -166,3 +172,106 @@ Example C14_post_exit_examples :
      = (AReview (mkReview 7 true 0 AMNone [1] 5 true), Some (1, (Mutating, [77; 117; 46; 99])))%N
   /\ admit_effects ex_hooks ex_path (BReview 7) (mkRun true (FResp true 0 [1] 5 false) (MOps true false) COk (KOps true false)) = (true, true).
 Proof. repeat split; vm_compute; reflexivity. Qed.
+
+(* ================================================================= requests that overlap in time *)
+Local Open Scope N_scope.
+
+(* any number of requests in flight, any interleaving of their steps: a request that has been
+   answered got the answer (and its run had the side effects) that C14_Model gives for ITS OWN run -
+   the one all theorems above are about; the other requests and the schedule do not occur in it *)
+Theorem C14_conc_answer_own_run : forall hooks rs s e, e < N.of_nat (length rs) ->
+  e_out (w_exec (conc_run hooks rs s) e) = None
+  \/ e_out (w_exec (conc_run hooks rs s) e) = Some (seq_out hooks (nth_req rs e)).
+Proof. exact out_own. Qed.
+Print Assumptions C14_conc_answer_own_run.
+
+(* two sessions (other requests beside it, another number of them), two interleavings: the same
+   request gets the same answer *)
+Theorem C14_conc_answer_function_of_request : forall hooks rs rs' s s' e o o',
+  e < N.of_nat (length rs) -> e < N.of_nat (length rs') -> nth_req rs e = nth_req rs' e ->
+  e_out (w_exec (conc_run hooks rs s) e) = Some o -> e_out (w_exec (conc_run hooks rs' s') e) = Some o' -> o = o'.
+Proof. exact out_function_of_request. Qed.
+Print Assumptions C14_conc_answer_function_of_request.
+
+(* "a request is handed to the hook and binding that registered that path": the hook process started
+   for a request has read the binding context of THAT request (its uid, the binding find_task names)
+   and found its four output files empty *)
+Theorem C14_conc_hook_sees_own_request : forall hooks rs s e, e < N.of_nat (length rs) ->
+  let st := w_exec (conc_run hooks rs s) e in
+  match e_pc st with
+  | QWrite | QExit | QRead | QRemove | QAnswer =>
+      e_seen st = Some (XCtx (uid_of (cq_body (nth_req rs e))) (e_link st)) /\ e_empty st = true
+      /\ find_task hooks (fst (detect (cq_path (nth_req rs e)))) (snd (detect (cq_path (nth_req rs e)))) = Some (e_hook st, e_link st)
+  | _ => True
+  end.
+Proof. exact hook_saw_own. Qed.
+Print Assumptions C14_conc_hook_sees_own_request.
+
+(* when Run reads the four files back, each holds what the hook process of the same request wrote *)
+Theorem C14_conc_reads_own_outputs : forall hooks rs s e, e < N.of_nat (length rs) ->
+  let st := w_exec (conc_run hooks rs s) e in
+  let w := conc_run hooks rs s in
+  e_pc st = QRead ->
+  as_rfile (w_fs w (name_of st KAdm)) = file (cq_run (nth_req rs e))
+  /\ as_mfile (w_fs w (name_of st KMet)) = metrics (cq_run (nth_req rs e))
+  /\ as_cfile (w_fs w (name_of st KConv)) = conv (cq_run (nth_req rs e))
+  /\ as_kfile (w_fs w (name_of st KPatch)) = kpatch (cq_run (nth_req rs e)).
+Proof. exact reads_own_outputs. Qed.
+Print Assumptions C14_conc_reads_own_outputs.
+
+(* what this rests on: files held by different requests never have the same name - also when the
+   requests are for the same hook and the same binding *)
+Theorem C14_conc_names_distinct : forall hooks rs s e e' k k',
+  e < N.of_nat (length rs) -> e' < N.of_nat (length rs) -> e <> e' ->
+  let w := conc_run hooks rs s in
+  holds (e_pc (w_exec w e)) k = true -> holds (e_pc (w_exec w e')) k' = true ->
+  name_of (w_exec w e) k <> name_of (w_exec w e') k'.
+Proof. exact names_distinct. Qed.
+Print Assumptions C14_conc_names_distinct.
+
+(* the moves by which the correspondence harness drives the held hook processes are schedules of the
+   transition system ... *)
+Theorem C14_conc_moves_are_schedules : forall hooks rs moves, exists s, moves_run hooks rs moves = conc_run hooks rs s.
+Proof. exact moves_run_is_schedule. Qed.
+Print Assumptions C14_conc_moves_are_schedules.
+
+(* ... under which EVERY request is answered, each with the answer for its own run: the model side of
+   the correspondence (C14_Corr.model_obs of a CConc case) in closed form *)
+Theorem C14_conc_every_request_answered : forall hooks rs moves,
+  outs rs (moves_run hooks rs moves) = map (fun q => Some (seq_out hooks q)) rs.
+Proof. exact moves_run_outs. Qed.
+Print Assumptions C14_conc_every_request_answered.
+
+(* and these answers meet the predicate of C14_ConcSpec: every request judged by C14_Spec.P against
+   its own run *)
+Theorem C14_conc_meets_spec : forall hooks rs, names_ok hooks ->
+  P_conc (model_regs hooks) (map (obs_of hooks) rs) = true.
+Proof. exact conc_P_holds. Qed.
+Print Assumptions C14_conc_meets_spec.
+
+(* ---- non-vacuity ---- *)
+(* two reviews for the SAME binding of the same hook ("p.c" of hook 0): run 0 denies with message 4
+   and warning 2, run 1 allows.  Schedule: 0 starts and writes, 1 starts and writes, 0 ends, 1 ends.
+   While both processes are held after writing, each request holds five files, all names differ;
+   at the end 0 is denied with its message and 1 is allowed. *)
+Definition ex_pc_path : bytes := [47; 104; 111; 111; 107; 115; 47; 112; 45; 99].     (* /hooks/p-c *)
+Definition ex_conc : list creq :=
+  [ mkCR ex_pc_path (BReview 1) (mkRun true (FResp false 4 [2] 0 false) MEmpty CEmpty KEmpty);
+    mkCR ex_pc_path (BReview 2) (mkRun true (FResp true 0 [] 0 false) MEmpty CEmpty KEmpty) ].
+Definition ex_held : world := fold_left (advance ex_hooks ex_conc 8) [0; 0; 1; 1] (init ex_conc).
+
+Example C14_conc_hyp_met :
+  0 < N.of_nat (length ex_conc) /\ 1 < N.of_nat (length ex_conc)
+  /\ e_pc (w_exec ex_held 0) = QExit /\ e_pc (w_exec ex_held 1) = QExit
+  /\ holds (e_pc (w_exec ex_held 0)) KAdm = true /\ holds (e_pc (w_exec ex_held 1)) KAdm = true
+  /\ name_of (w_exec ex_held 0) KAdm = (0, KAdm, 2) /\ name_of (w_exec ex_held 1) KAdm = (0, KAdm, 7)
+  /\ w_fs ex_held (0, KAdm, 2) = Some (XResp (FResp false 4 [2] 0 false))
+  /\ w_fs ex_held (0, KAdm, 7) = Some (XResp (FResp true 0 [] 0 false)).
+Proof. repeat split; vm_compute; reflexivity. Qed.
+
+Example C14_conc_example :
+  outs ex_conc (moves_run ex_hooks ex_conc [0; 0; 1; 1; 0; 1])
+  = [ Some (AReview (mkReview 1 false 403 (AMHook 4) [2] 0 false), Some (0, (Validating, [112; 46; 99])), (false, false), true);
+      Some (AReview (mkReview 2 true 0 AMNone [] 0 false), Some (0, (Validating, [112; 46; 99])), (false, false), true) ]
+  /\ outs ex_conc (moves_run ex_hooks ex_conc [1; 0; 1; 0; 1; 0]) = outs ex_conc (moves_run ex_hooks ex_conc [0; 0; 1; 1; 0; 1]).
+Proof. split; vm_compute; reflexivity. Qed.
